@@ -21,9 +21,24 @@ DIGITS = {
 _PH = re.compile(r'\$\{(\w+)\}|\$(BUint|BInt|BASE|HALF|DMAX|HBASE|LOGDB|HDB|DBM1|DD|DB|SD|D)(?![A-Za-z_])')
 
 
-def subst(text, digit):
+_PH2 = re.compile(r'\$\{(\w+)2\}|\$(BUint|BInt|BASE|HALF|DMAX|HBASE|LOGDB|HDB|DBM1|DD|DB|SD|D)2(?![A-Za-z_0-9])')
+
+
+def subst(text, digit, digit2=None):
+    """`digit` may be a pair 'AxB' (pair units): `$D2`, `$BUint2`, `${DB2}` ... come from the second type B"""
+    if digit2 is None and 'x' in digit:
+        digit, digit2 = digit.split('x')
+    if digit2 is not None:
+        d2 = DIGITS[digit2]
+        text = _PH2.sub(lambda m: d2[m.group(1) or m.group(2)], text)
     d = DIGITS[digit]
     return _PH.sub(lambda m: d[m.group(1) or m.group(2)], text)
+
+
+def split_pair(digit):
+    """'u64xu32' -> ('u64', 'u32'); 'u64' -> ('u64', None)"""
+    a, _, b = digit.partition('x')
+    return a, (b or None)
 
 
 class Entry:
